@@ -125,11 +125,20 @@ func c06Check(ctx *core.Ctx, c c06Case, probes []int, reqs *[]string, pend *[]fu
 	if len(mins) > 0 {
 		ms, xs = strings.Join(mins, ","), strings.Join(maxs, ",")
 	}
-	for _, v := range probes {
-		v := v
-		got := parquet.Search(index, c06Value(c.kind, v), typ)
+	for _, pn := range c06ProbeOrderings(probes) {
+		v, nullsFirst := pn.v, pn.nullsFirst
+		// Find with the two null orderings a caller can wrap the type's Compare in: nulls last is what
+		// Search uses, nulls first is the example of Find's doc comment
+		cmp, nfTag, nfArg := parquet.CompareNullsLast(typ.Compare), "", "0"
+		if nullsFirst {
+			cmp, nfTag, nfArg = parquet.CompareNullsFirst(typ.Compare), " nulls-first", "1"
+			ctx.Hist("null-ordering", "nulls-first")
+		} else {
+			ctx.Hist("null-ordering", "nulls-last")
+		}
+		got := parquet.Find(index, c06Value(c.kind, v), cmp)
 		// ---- L1: the property itself
-		first := -1   // first page that contains v as a value
+		first := -1       // first page that contains v as a value
 		anyBound := false // some page's recorded bounds contain v
 		for i, p := range c.pages {
 			if p.null {
@@ -147,8 +156,8 @@ func c06Check(ctx *core.Ctx, c c06Case, probes []int, reqs *[]string, pend *[]fu
 				}
 			}
 		}
-		sig := fmt.Sprintf("order=%d nullpages=%v", order, hasNull)
-		detail := map[string]any{"case": c.canon(), "probe": v, "returned": got, "numPages": n, "first_page_with_value": first}
+		sig := fmt.Sprintf("order=%d nullpages=%v", order, hasNull) + nfTag
+		detail := map[string]any{"case": c.canon(), "probe": v, "nulls_first": nullsFirst, "returned": got, "numPages": n, "first_page_with_value": first}
 		switch {
 		case got < 0 || got > n:
 			ctx.Fail("L1", "out-of-range "+sig, "Search returned an index outside 0..NumPages", detail)
@@ -173,15 +182,28 @@ func c06Check(ctx *core.Ctx, c c06Case, probes []int, reqs *[]string, pend *[]fu
 		if c.kind != "int32" {
 			zero = -1000 // null pages store the empty byte string, which sorts before every value
 		}
-		*reqs = append(*reqs, fmt.Sprintf("find %s %d %s %s %d", asc, zero, ms, xs, v))
+		*reqs = append(*reqs, fmt.Sprintf("find.nf %s %s %d %s %s %d", nfArg, asc, zero, ms, xs, v))
 		*pend = append(*pend, func(ans string) {
 			want := fmt.Sprintf("ok %d %d", got, order)
 			if ans != want {
 				ctx.Fail("L2", "find-mirror "+sig, "Find/boundary order differ from the Lean mirror", map[string]any{
-					"case": c.canon(), "probe": v, "impl": want, "model": ans})
+					"case": c.canon(), "probe": v, "nulls_first": nullsFirst, "impl": want, "model": ans})
 			}
 		})
 	}
+}
+
+type c06ProbeOrdering struct {
+	v          int
+	nullsFirst bool
+}
+
+func c06ProbeOrderings(probes []int) []c06ProbeOrdering {
+	out := make([]c06ProbeOrdering, 0, 2*len(probes))
+	for _, v := range probes {
+		out = append(out, c06ProbeOrdering{v, false}, c06ProbeOrdering{v, true})
+	}
+	return out
 }
 
 func c06Flush(ctx *core.Ctx, d interface {
